@@ -168,6 +168,8 @@ impl NameMap {
                         // Attempt to assign a name with an incrementing index
                         let mut counter = 0;
                         loop {
+                            #[cfg(feature = "verif-hooks")]
+                            rssl_text::verif::tick(19);
                             let candidate = format!("{}_{}", name, counter);
 
                             if used_names.insert(candidate.clone()) {
@@ -214,6 +216,8 @@ impl NameMap {
                 // This may not conflict with a global name or any other local name in the general case
                 let mut counter = 0;
                 loop {
+                    #[cfg(feature = "verif-hooks")]
+                    rssl_text::verif::tick(20);
                     let candidate = format!("{}_{}", name, counter);
 
                     if !all_local_names.contains(&candidate)
